@@ -521,8 +521,11 @@ class Engine:
             raise vlib.Inconclusive("TLC failed on %s: rc=%s timed_out=%s\n%s" % (cfg, r.rc, r.timed_out, r.out[-1500:]))
         return r
 
-    def edges(self, cfg, timeout=900, check=True):
-        r = self.ctx.tlc("FSM", cfg=cfg, workers=1, timeout=timeout, deadlock=False, name="tlc-" + cfg.replace(".cfg", ""))
+    def edges(self, cfg, timeout=900, check=True, coverage=False):
+        r = self.ctx.tlc("FSM", cfg=cfg, workers=1, timeout=timeout, deadlock=False, coverage=coverage,
+                         name="tlc-" + cfg.replace(".cfg", ""))
+        if coverage:
+            self.ctx.cov["coverage_zero_" + cfg.replace(".cfg", "")] = [l for l in r.coverage_zero() if "module FSM" in l][:20]
         self._record(cfg, r, "edges")
         if r.invariant_violated:
             raise vlib.Inconclusive("the design spec FSM.tla (%s) violates its own invariant %s" % (cfg, r.invariant_violated))
